@@ -69,9 +69,9 @@ func solve(file string, timeoutS int, all bool) SolveResult {
 					break
 				}
 			}
-			if strings.Contains(string(out), "(error ") {
+			for _, l := range strings.Split(string(out), "\n") {
 				// a malformed query must never count as an answer
-				if !(first == "unsat" && strings.Count(string(out), "(error ") == 1 && strings.Contains(string(out), "model is not available")) {
+				if strings.Contains(l, "(error ") && !strings.Contains(l, "model is not available") {
 					first = "error"
 				}
 			}
